@@ -19,7 +19,7 @@ from ..model import AnalysisError
 from ..terms import T, walk_terms
 from ..absint import AV, TOP, cav
 from ..walk import (call_parts, call_arg, is_call_to, const_val, NOVAL, strip_views, unwrap_gamma, callee_func, callee_name,
-                    call_paths, is_conj, same_value, norm_stmt)
+                    call_paths, is_conj, same_value, norm_stmt, gamma_paths, compatible, newaxis_insertions, shape_dim, selected_options)
 from .. import loop as LP
 from .. import ein, sel
 
@@ -406,6 +406,229 @@ def is_saliency_term(t):
     return any(x.op == 'param' and x.args[0] == 'saliency' for x in walk_terms(t, into_mu=False))
 
 
+def _string_paths(t, conds=None):
+    """[(path condition, str)] of a subscript operand: a literal, a conditional of literals, a concatenation of those; None when something else"""
+    out = []
+    for c, leaf in gamma_paths(t, conds):
+        leaf = strip_views(leaf)
+        v = const_val(leaf)
+        if leaf.op == 'raise' or (leaf.op == 'unknown' and leaf.args == ('keyerror',)):
+            continue                  # a path that does not continue
+        if isinstance(v, str):
+            out.append((c, v))
+        elif leaf.op == 'binop' and leaf.args[0] == 'Add':
+            left = _string_paths(leaf.args[1], c)
+            if left is None:
+                return None
+            for c1, s1 in left:
+                right = _string_paths(leaf.args[2], c1)
+                if right is None:
+                    return None
+                out += [(c2, s1 + s2) for c2, s2 in right]
+        else:
+            return None
+    return out
+
+
+def _mass_paths(t, conds=None, n_new=0, n_dim=0, depth=0):
+    """[(path condition, number of axes appended on the right, kind, number of axis-length factors)] of a normaliser: kind 'mass' = a reduction of the saliency over the
+    observation axis (one value per leading index), 'count' = a 0-d number of observations (broadcasts against anything), None = not recognised"""
+    out = []
+    if depth > 12:
+        return [(conds or {}, n_new, None, n_dim)]
+    for c, leaf in gamma_paths(t, conds):
+        leaf = strip_views(leaf)
+        ins = newaxis_insertions(leaf)
+        if ins is not None and ins[1] and all(isinstance(p_, int) and p_ < 0 for p_ in ins[1]) and sorted(ins[1]) == list(range(-len(ins[1]), 0)):
+            out += _mass_paths(ins[0], c, n_new + len(ins[1]), n_dim, depth + 1)
+            continue
+        if leaf.op == 'sub':
+            ix = leaf.args[1]
+            while ix.op == 'refine':
+                ix = ix.args[0]
+            if ix.op == 'gamma':
+                # x[index] with the index tuple selected by tests (a column of a dispatch table)
+                alts = gamma_paths(ix, c)
+                vals = [const_val(a_) for _c, a_ in alts]
+                if alts and all(isinstance(v_, tuple) and len(v_) >= 1 and v_[0] is Ellipsis and all(x_ is None for x_ in v_[1:]) for v_ in vals):
+                    for (c1, _a), v_ in zip(alts, vals):
+                        out += _mass_paths(leaf.args[0], c1, n_new + len(v_) - 1, n_dim, depth + 1)
+                    continue
+        if is_call_to(leaf, 'numpy.maximum'):
+            a, b = call_arg(leaf, 0), call_arg(leaf, 1)
+            arr = [x for x in (a, b) if x is not None and not tiny_floor(x)]
+            if len(arr) == 1:
+                out += _mass_paths(arr[0], c, n_new, n_dim, depth + 1)
+                continue
+        if leaf.op == 'sub' and leaf.args[1].op == 'tuple' and len(leaf.args[1].args[0]) == 2 and const_val(leaf.args[1].args[0][0]) is Ellipsis \
+                and leaf.args[1].args[0][1].op == 'star':
+            # x[(..., *(None,) * k)] with k selected by tests
+            rep = strip_views(leaf.args[1].args[0][1].args[0])
+            if rep.op == 'binop' and rep.args[0] == 'Mult':
+                tup, k = strip_views(rep.args[1]), rep.args[2]
+                if const_val(tup) != (None,):
+                    tup, k = strip_views(rep.args[2]), rep.args[1]
+                if const_val(tup) == (None,):
+                    ks = gamma_paths(k, c)
+                    if all(isinstance(const_val(kl), int) for _c, kl in ks):
+                        for c1, kl in ks:
+                            out += _mass_paths(leaf.args[0], c1, n_new + const_val(kl), n_dim, depth + 1)
+                        continue
+        if leaf.op in ('binop', 'iop') and leaf.args[0] == 'Mult':
+            a, b = leaf.args[1], leaf.args[2]
+
+            def axis_length(x):
+                x = strip_views(x)
+                return shape_dim(x) is not None or (x.op == 'unpack' and strip_views(x.args[0]).op == 'attr' and strip_views(x.args[0]).args[1] == 'shape')
+            if axis_length(b):
+                out += _mass_paths(a, c, n_new, n_dim + 1, depth + 1)
+                continue
+            if axis_length(a):
+                out += _mass_paths(b, c, n_new, n_dim + 1, depth + 1)
+                continue
+        if is_call_to(leaf, 'numpy.array', 'numpy.asarray') and call_arg(leaf, 0) is not None and shape_dim(call_arg(leaf, 0)) is not None:
+            out.append((c, n_new, 'count', n_dim))
+            continue
+        if shape_dim(leaf) is not None or (leaf.op == 'unpack' and strip_views(leaf.args[0]).op == 'attr' and strip_views(leaf.args[0]).args[1] == 'shape'):
+            out.append((c, n_new, 'count', n_dim))
+            continue
+        if is_call_to(leaf, 'numpy.einsum'):
+            _, pos, _kw = call_parts(leaf)
+            subs = _string_paths(pos[0], c) if pos else None
+            if subs and len(pos) == 2 and is_saliency_term(pos[1]):
+                for c1, sub in subs:
+                    sub = sub.replace(' ', '')
+                    lhs, _, rhs = sub.partition('->')
+                    out.append((c1, n_new, 'mass' if (lhs.startswith('...') and rhs == '...' and len(lhs) == 4) else None, n_dim))
+                continue
+        if is_call_to(leaf, 'numpy.sum') and is_saliency_term(call_arg(leaf, 0, 'a')) and const_val(call_arg(leaf, 1, 'axis')) == -1:
+            kd = call_arg(leaf, None, 'keepdims')
+            out.append((c, n_new + (1 if kd is not None and const_val(kd) is True else 0), 'mass', n_dim))
+            continue
+        out.append((c, n_new, None, n_dim))
+    return out
+
+
+def check_mass_rank(run, A):
+    """(a) the saliency mass has one value per leading index; the contraction it divides has the leading axes plus the letters kept after the ellipsis.  Dividing needs exactly
+    that many axes appended to the mass - with fewer, NumPy aligns the mass with the LAST axes of the statistic: an error for most shapes, and a silent mixing of the
+    independent problems whenever the lengths happen to agree (F == D).
+    (b) a statistic that also sums over a feature axis (the spherical variance) is a mean only when the mass is multiplied by the length of that axis."""
+    n = 0
+    for q in SCATTER_FITS:
+        fn = A.prog.func(q)
+        g = A.graphs.get(fn)
+        short = q.split('::')[1]
+        seen = set()
+        for root in [g.ret] + [e.term for e in g.events if e.term is not None]:
+            for t in walk_terms(root, into_mu=False):
+                if t.id in seen or t.op not in ('binop', 'iop') or t.args[0] != 'Div':
+                    continue
+                seen.add(t.id)
+                dens = _mass_paths(t.args[2])
+                if not any(k in ('mass', 'count') for _c, _n, k, _d in dens):
+                    continue
+                for cn, num in gamma_paths(t.args[1]):
+                    num = strip_views(num)
+                    if not is_call_to(num, 'numpy.einsum'):
+                        continue
+                    _, pos, _kw = call_parts(num)
+                    subs = _string_paths(pos[0], cn) if pos else None
+                    if not subs:
+                        continue
+                    for cs, sub in subs:
+                        sub = sub.replace(' ', '')
+                        if '->' not in sub:
+                            continue
+                        lhs, rhs = sub.split('->')
+                        if not rhs.startswith('...'):
+                            continue
+                        kept = len(rhs) - 3
+                        data_ops = [o.replace('...', '') for o, x in zip(lhs.split(','), pos[1:])
+                                    if not all(strip_views(a_).op == 'param' and strip_views(a_).args[0] == 'saliency' for a_ in unwrap_gamma(x))]
+                        summed = {c_ for o in data_ops for c_ in o if c_ not in rhs}
+                        extra = len(summed) - 1          # beyond the observation axis
+                        comp_ = [(n_new, kind, n_dim) for cd, n_new, kind, n_dim in dens if kind in ('mass', 'count') and compatible(cs, cd)]
+                        ranks = {n_new for n_new, kind, _d in comp_ if kind == 'mass'}
+                        dims = {n_dim for _n, _k, n_dim in comp_}
+                        # alternatives of the normaliser that the path conditions cannot tell apart and that disagree with each other: not decided (never a violation)
+                        if ranks:
+                            n += 1
+                            inst = f'{short} {sub!r}: the saliency mass is aligned with the leading axes of the statistic it divides'
+                            if ranks == {kept}:
+                                run.ok('R-EIN', inst, fn.loc(t.node), '')
+                            elif kept in ranks:
+                                run.unresolved('R-EIN', inst, fn.loc(t.node), f'alternatives of the normaliser append {sorted(ranks)} axes and cannot be matched to the alternatives of the statistic')
+                            else:
+                                run.violation('R-EIN', inst, fn.loc(t.node),
+                                              f'the statistic keeps {kept} ax{"is" if kept == 1 else "es"} after the leading ones ({rhs!r}) but the mass (one value per leading index) gets '
+                                              f'{sorted(ranks)} appended: the division pairs the mass with the wrong axes (broadcast error, or silently mixed independent problems when lengths agree)',
+                                              construct=f'R-EIN::{q}::mass-rank::{rhs}')
+                        if dims and extra >= 0:
+                            n += 1
+                            inst = f'{short} {sub!r}: the normaliser counts every summed element'
+                            if dims == {extra}:
+                                run.ok('R-EIN', inst, fn.loc(t.node), '')
+                            elif extra in dims:
+                                run.unresolved('R-EIN', inst, fn.loc(t.node), f'alternatives of the normaliser carry {sorted(dims)} axis-length factors and cannot be matched to the alternatives of the statistic')
+                            else:
+                                run.violation('R-EIN', inst, fn.loc(t.node),
+                                              f'the statistic sums over {extra} feature ax{"is" if extra == 1 else "es"} besides the observations, the normaliser is multiplied by {sorted(dims)} axis '
+                                              f'length(s): the result is not the mean over the summed elements', construct=f'R-EIN::{q}::mass-count::{rhs}')
+    run.floor('divisions of a statistic by the observation mass with decided ranks / counts', n, 25)
+
+
+COVARIANCE_CLASSES = {'Gaussian': ('full', 2), 'DiagonalGaussian': ('diagonal', 1), 'SphericalGaussian': ('spherical', 0)}
+
+
+def check_gaussian_dispatch(run, A):
+    """GaussianTrainer._fit: the option string, the model class that is returned and the axes the pooled scatter keeps belong together
+    ('full' -> Gaussian, (..., D, D); 'diagonal' -> DiagonalGaussian, (..., D); 'spherical' -> SphericalGaussian, (...))."""
+    q = D + 'gaussian::GaussianTrainer._fit'
+    fn = A.prog.func(q)
+    g = A.graphs.get(fn)
+    n = 0
+    returns = []
+    for conds, leaf in gamma_paths(g.ret):
+        leaf = strip_views(leaf)
+        if leaf.op == 'call' and leaf.args[0].op in ('gamma', 'refine'):
+            # model_cls(...) with the class selected by tests
+            for c2, cal in gamma_paths(leaf.args[0], conds):
+                if cal.op == 'ref' and hasattr(cal.args[0], 'qual'):
+                    returns.append((c2, leaf, cal.args[0].qual))
+        elif call_parts(leaf)[0] is not None:
+            returns.append((conds, leaf, call_parts(leaf)[0]))
+    for conds, leaf, name in returns:
+        cname = name.split('::')[-1].split('.')[-1]
+        if cname not in COVARIANCE_CLASSES:
+            continue
+        want_opt, want_rank = COVARIANCE_CLASSES[cname]
+        opts = [next(iter(o)) for o in selected_options(conds, 'covariance_type') if len(o) == 1]
+        if opts:
+            n += 1
+            run.check(opts == [want_opt], 'R-SIB', f'GaussianTrainer._fit: covariance_type {opts[0]!r} returns the model of that name', fn.loc(leaf.node), '',
+                      f'covariance_type == {opts[0]!r} returns a {cname} (the class for {want_opt!r})', construct=f'R-SIB::{q}::option-class::{cname}')
+        cov = call_arg(leaf, None, 'covariance')
+        if cov is None:
+            continue
+        ranks = set()
+        for c2, alt in gamma_paths(cov, conds):
+            alt = strip_views(alt)
+            if alt.op in ('binop', 'iop') and alt.args[0] == 'Div':
+                for c3, num in gamma_paths(alt.args[1], c2):
+                    num = strip_views(num)
+                    if is_call_to(num, 'numpy.einsum'):
+                        for _c4, sub in (_string_paths(call_parts(num)[1][0], c3) or []):
+                            rhs = sub.replace(' ', '').split('->')[-1]
+                            if rhs.startswith('...'):
+                                ranks.add(len(rhs) - 3)
+        if ranks:
+            n += 1
+            run.check(ranks == {want_rank}, 'R-SIB', f'GaussianTrainer._fit: the scatter handed to {cname} keeps {want_rank} feature axes', fn.loc(leaf.node), '',
+                      f'{cname} expects a covariance with {want_rank} trailing feature ax(es); the contraction on this path keeps {sorted(ranks)}', construct=f'R-SIB::{q}::class-rank::{cname}')
+    run.floor('GaussianTrainer._fit option / class / contraction triples', n, 6)
+
+
 def check_estimators(run, A):
     n = 0
     for q in SCATTER_FITS:
@@ -627,3 +850,5 @@ def check(run):
     _n = _rs.check_reshapes(run, A, [D + 'gcacgmm::GCACGMMTrainer.fit', D + 'vmfcacgmm::VMFCACGMMTrainer.fit', D + 'gcacgmm::GCACGMM.predict', D + 'vmfcacgmm::VMFCACGMM.predict'])
     run.floor('reshapes of the integration models with resolved axis order', _n, 4)
     check_estimators(run, A)
+    check_mass_rank(run, A)
+    check_gaussian_dispatch(run, A)
